@@ -634,7 +634,7 @@ def run(ctx):
         chunks = [[o.get("input", o)]]
     else:
         corpus = [inp for _, inp in load_corpus("C16")]
-        jobs = make_cases(rng, ctx.scale(700, 9000), ctx.tier)
+        jobs = make_cases(rng, ctx.scale(1500, 9000), ctx.tier)
         nshards = min(48, max(16, len(jobs) // 150))
         chunks = ([corpus] if corpus else []) + [jobs[i::nshards] for i in range(nshards)]
     ctx.rule = ("case = (netlist source, target format, composer options): API-built hierarchical netlists (gen.gen_netlist, 1-3 libraries, "
@@ -652,3 +652,31 @@ def run(ctx):
     ctx.partial_notes += ["partial: file completeness/closing is observed, not proved"]
     deadline = time.time() + max(30.0, ctx.time_left() - ctx.scale(25, 120))
     shard.run_shards(ctx, shard_worker, [(c, deadline, i) for i, c in enumerate(chunks) if c])
+
+
+def search(ctx, diverging):
+    """neighbourhood search: the diverging sources under every target format and option combination,
+    plus a fresh batch of random cases (within the remaining budget)."""
+    rng = ctx.rng("c16-search")
+    jobs = []
+    for inp in diverging:
+        src = inp.get("source")
+        if not src:
+            continue
+        for fmt in ("edif", "verilog", "eblif"):
+            if fmt == "verilog":
+                opts = [{"definition_list": dl, "write_blackbox": wb, "defparam": dp}
+                        for dl in ([], ["mod_a"]) for wb in (True, False) for dp in (True, False)]
+            elif fmt == "eblif":
+                opts = [{"write_blackbox": wb, "write_eblif_cname": cn} for wb in (True, False) for cn in (True, False)]
+            else:
+                opts = [{}]
+            for o in opts:
+                jobs.append({"kind": "c16", "source": src, "fmt": fmt, "options": o})
+            if fmt == "edif":
+                jobs.append({"kind": "c16", "source": src, "fmt": fmt, "options": {}, "api": "ComposeEdif.run", "name_none": True})
+    jobs += make_cases(rng, 7000, ctx.tier)
+    ctx.dist("search.jobs", len(jobs))
+    nshards = 32
+    deadline = time.time() + max(20.0, ctx.time_left() - 20)
+    shard.run_shards(ctx, shard_worker, [(jobs[i::nshards], deadline, 1000 + i) for i in range(nshards) if jobs[i::nshards]])
